@@ -817,6 +817,17 @@ func (d *decoderState) AtEOF() bool {
 	return err == io.ErrUnexpectedEOF
 }
 
+// AtEOFOrError is like AtEOF, but also returns the I/O error (if any)
+// encountered while looking for the start of the next value.
+func (d *decoderState) AtEOFOrError() (bool, error) {
+	switch _, err := d.consumeWhitespace(d.prevEnd); err.(type) {
+	case *ioError:
+		return false, err
+	default:
+		return err == io.ErrUnexpectedEOF, nil
+	}
+}
+
 // CheckEOF verifies that the input has no more data.
 func (d *decoderState) CheckEOF() error {
 	return d.checkEOF(d.prevEnd)
